@@ -63,10 +63,11 @@ def sym_run_parallel(tag=''):
                 raise Unsupported('loop-carried variable(s) %s in run_parallel' % sorted(carried))
             seen |= {t.id for n in ast.walk(stmt) if isinstance(n, (ast.Assign, ast.AugAssign))
                      for t in ([n.target] if isinstance(n, ast.AugAssign) else n.targets) for t in ast.walk(t) if isinstance(t, ast.Name)}
-        if not (conc(rng.a) == 0 and conc(rng.st) == 1 and isinstance(s.target, ast.Name)):
+        if not (conc(rng.st) == 1 and isinstance(s.target, ast.Name)):
             raise Unsupported('unexpected loop shape')
-        env[s.target.id] = icore
-        st.live = z3.And(st.live, icore >= 0, icore < Z(rng.b))
+        # generic iteration number icore in [0, b - a); the loop variable is a + icore (range(n) and range(first, first + n) alike)
+        env[s.target.id] = icore if conc(rng.a) == 0 else Z(rng.a) + icore
+        st.live = z3.And(st.live, icore >= 0, icore < Z(rng.b) - Z(rng.a))
         loops.append(dict(var=s.target.id, bound=rng.b))
         x.block(s.body, env, st)
 
